@@ -51,7 +51,7 @@ namespace Givaro {
     inline Array0<T>::Array0 (const Self_t& p, givNoCopy)
     {
         _psz = p._psz; _size = p._size;
-        if (_size !=0)
+        if (_psz !=0)
         { // increment ref. counting
             _d = p._d;
             _cnt = p._cnt; (*_cnt) ++;
